@@ -155,10 +155,30 @@ func c11ProcColours(t *rapid.T) {
 	}
 	// the first line is an uncoloured one that holds the pointer (its row is drawn with other colours)
 	all := append([]string{"pointer-line"}, input...)
-	s := StartSession(t, SessionCfg{Args: []string{"--ansi", "--no-mouse", "--no-sort", "--no-bold", "--info=hidden", "--no-separator", "--pointer", ">", "--no-scrollbar"},
-		Input: []byte(strings.Join(all, "\n") + "\n"), Width: 70, Height: 12})
+	args := []string{"--ansi", "--no-mouse", "--no-sort", "--no-bold", "--info=hidden", "--no-separator", "--pointer", ">", "--no-scrollbar"}
+	data := strings.Join(all, "\n") + "\n"
+	height, nitems := 12, len(all)
+	// or: the same lines grouped into multi-line records (--read0), in a window too short to show
+	// all of them, so that the record at the edge is cut: the rows that are visible keep their colours
+	multiline := rapid.IntRange(0, 2).Draw(t, "multilineRecords") == 0
+	if multiline {
+		var recs []string
+		recs = append(recs, "pointer-line")
+		for i := 0; i < len(input); {
+			k := rapid.IntRange(1, 3).Draw(t, "recordLines")
+			if i+k > len(input) {
+				k = len(input) - i
+			}
+			recs = append(recs, strings.Join(input[i:i+k], "\n"))
+			i += k
+		}
+		args = append(args, "--read0")
+		data = strings.Join(recs, "\x00") + "\x00"
+		height, nitems = rapid.IntRange(4, 8).Draw(t, "shortWindow"), len(recs)
+	}
+	s := StartSession(t, SessionCfg{Args: args, Input: []byte(data), Width: 70, Height: height})
 	defer s.Close()
-	if _, ok := s.WaitFor(20, func(st *Status) bool { return !st.Reading && st.TotalCount == len(all) && st.MatchCount == len(all) }); !ok {
+	if _, ok := s.WaitFor(20, func(st *Status) bool { return !st.Reading && st.TotalCount == nitems && st.MatchCount == nitems }); !ok {
 		infra(t, "session did not settle")
 	}
 	desc := fmt.Sprintf("%q", input)
@@ -191,7 +211,7 @@ func c11ProcColours(t *rapid.T) {
 			}
 			if hit {
 				found++
-			} else {
+			} else if !multiline {
 				msg = fmt.Sprintf("line %q is not on the screen", wl.text)
 			}
 		}
@@ -201,7 +221,7 @@ func c11ProcColours(t *rapid.T) {
 		// the screen may not be drawn yet
 		time.Sleep(50 * time.Millisecond)
 	}
-	vstat.Case("C11/proc-colours", desc, seqOnly && carried, fmt.Sprintf("sequence_only_line=%v", seqOnly), fmt.Sprintf("carried=%v", carried))
+	vstat.Case("C11/proc-colours", desc, seqOnly && carried, fmt.Sprintf("sequence_only_line=%v", seqOnly), fmt.Sprintf("carried=%v", carried), fmt.Sprintf("multiline_records=%v", multiline))
 	if msg != "" {
 		t.Fatalf("%s\ninput lines: %s\nscreen:\n%s", msg, desc, strings.Join(s.Capture(), "\n"))
 	}
